@@ -5,11 +5,13 @@ model      : specs/Lifecycle/LifecycleModel.tla (pure reference model, a relatio
              sequence up to a bound; TPConc.tla (implementation-shaped, lock-level) for 3-5 concurrent
              callers of Shutdown / Unregister / Register / End, incl. a NoKnown config that must find the
              known deviation D5 and a statement-shaped config that must be clean; BSP.tla `Stuck`
-             demonstrates D2/D3 (blocking forever) at model level.
+             (nothing blocks forever) must hold for the current shape of the batch span processor and must
+             still fail for the pre-ada0bc0 shape (D2/D3, model-level regression of the repair).
 spec->code : every TLC edge is replayed on the real providers with recording processors / readers /
              exporters (harness/c15 replay); configurations with nil exporters run one subprocess per
              edge so that a crash in a background goroutine is observed as an exit status.
-code->spec : directed schedules (TLC counterexamples: D2/D3 through the BSP verif hooks, natural gates
+code->spec : directed schedules (TLC counterexamples: the D2/D3 schedules through the BSP verif hooks, whose
+             End / ForceFlush must RETURN since ada0bc0 -- a call parked forever is `hung`, exit 1; natural gates
              inside a processor's Shutdown) and seeded random concurrent scenarios with perturbation are
              recorded as ndjson and validated by TLC against the total contract LifecycleContract.tla.
 Verdicts only from real-code behaviour; known genuine defects are listed in known_findings/C15.json.
@@ -105,12 +107,14 @@ CONC_THOROUGH = [
 ]
 
 
-def bsp_defs(p, k, q, b, blocking, f, s):
+def bsp_defs(p, k, q, b, blocking, f, s, shape="current"):
+    # placeholders of specs/BSP/MC_BSP*.cfg (C01's specification of the batch span processor)
     return {"PRODUCERS": tla_set(["p%d" % (i + 1) for i in range(p)]),
             "FLUSHERS": tla_set(["f%d" % (i + 1) for i in range(f)]),
             "STOPPERS": tla_set(["s%d" % (i + 1) for i in range(s)]),
             "SPANSPER": k, "QCAP": q, "MAXBATCH": b, "BLOCKING": "TRUE" if blocking else "FALSE",
-            "ALLOWKNOWN": "TRUE", "STUCK": "Stuck"}
+            "ALLOWKNOWN": "TRUE", "STUCK": "Stuck", "CODESHAPE": shape, "OUTCOMES": tla_set(["ok", "error"]),
+            "EXPIRING": tla_set([]), "EXPORTTIMEOUT": "TRUE", "RESETONFAILURE": "TRUE"}
 
 
 def model_checking(ctx, thorough):
@@ -129,14 +133,23 @@ def model_checking(ctx, thorough):
     # ... and the statement-shaped Unregister satisfies the strict invariants
     ctx.tlc(S, "MC_TPConc", "MC_TPConc.cfg", name="conc-statement", timeout=1800,
             defines={"CALLERS": callers, "INIT": tla_seq(init), "CODESHAPE": "FALSE", "ALLOWKNOWN": "FALSE"})
-    # D2/D3 at model level: BSP.tla (C01's specification of the batch span processor) deadlocks
-    # (`Stuck`) with a producer / flusher past the stopped check; reproduced on the real code below
-    for blocking, name in ((True, "bsp-stuck-blocking-D2"), (False, "bsp-stuck-dropmode-D3")):
-        r = ctx.tlc("BSP", "MC_BSP", "MC_BSP.cfg", defines=bsp_defs(2, 1, 1, 1, blocking, 1, 1), name=name,
-                    must_pass=False, count=False, timeout=900)
-        ctx.extra.setdefault("model_exhibits_stuck", {})[name] = (r["violated"] == "Stuck")
+    # "blocks forever" of the batch span processor at model level: BSP.tla (C01's specification, same TLA+ text)
+    # with a producer / flusher past the stopped check across a complete Shutdown and a queue of one.
+    # Current shape (ada0bc0: blocking sends select on stopCh): `Stuck` holds in blocking and drop mode, and
+    # under fairness every call returns (Termination). Pre-ada0bc0 shape: `Stuck` must still fail (D2: End,
+    # D3: ForceFlush marker) -- the model-level regression of the repair; the real-code regression is the
+    # directed D2/D3 schedules below.
+    for blocking, mode in ((True, "blocking"), (False, "dropmode")):
+        ctx.tlc("BSP", "MC_BSP", "MC_BSP.cfg", defines=bsp_defs(2, 1, 1, 1, blocking, 1, 1), name="bsp-nostuck-" + mode,
+                timeout=900)
+        ctx.tlc("BSP", "MC_BSP", "MC_BSP_live.cfg", defines=bsp_defs(2, 1, 1, 1, blocking, 1, 1), name="bsp-live-" + mode,
+                timeout=1800)
+        name = "bsp-stuck-old-shape-%s-%s" % (mode, "D2" if blocking else "D3")
+        r = ctx.tlc("BSP", "MC_BSP", "MC_BSP.cfg", defines=bsp_defs(2, 1, 1, 1, blocking, 1, 1, shape="pre-ada0bc0"),
+                    name=name, must_pass=False, count=False, timeout=900)
+        ctx.extra.setdefault("old_shape_exhibits_stuck", {})[name] = (r["violated"] == "Stuck")
         if r["violated"] != "Stuck":
-            ctx.note_inconclusive("model drift: BSP.tla no longer exhibits Stuck (%s)" % r["out"])
+            ctx.note_inconclusive("model drift: the pre-ada0bc0 shape of BSP.tla no longer violates Stuck (%s)" % r["out"])
 
 
 def replay_all(ctx, binp, thorough):
@@ -239,9 +252,15 @@ def run(ctx):
     r1 = os.path.join(ctx.work, "res-directed.json")
     ctx.run([binp, "directed", "-out", t1, "-res", r1, "-reps", "2" if thorough else "1"], timeout=3000)
     res1 = judge_trace(ctx, t1, r1, "directed", kinds)
-    # the directed schedules must reproduce what they were written for (binding of the gates)
-    if "hung" not in kinds and any(k.get("status") == "known" and "D2" in k["id"] for k in ctx._known):
-        ctx.extra["note_directed"] = "D2/D3 schedules did not end in a hung call in this run"
+    # the D2/D3 gate schedules are the real-code regression of ada0bc0: End / ForceFlush past the stopped check
+    # must RETURN after the drain. A call that parks forever again is a `hung` violation (reported above through
+    # the contract; the D2/D3 entries of known_findings are "fixed" and suppress nothing -> exit 1). The gates
+    # must have been reached for the schedules to mean anything (binding; otherwise inconclusive, never a verdict).
+    c1 = res1["counters"]
+    ctx.extra["bsp_race"] = {k: v for k, v in c1.items() if k.startswith("bsp_race")}
+    if c1.get("bsp_race_second_call_returned", 0) != c1.get("bsp_race_schedules", -1) and "hung" not in kinds:
+        ctx.note_inconclusive("D2/D3 schedules: the gated End / ForceFlush neither returned nor was reported hung (%s, desync=%s)"
+                              % (ctx.extra["bsp_race"], c1.get("directed_desync", 0)))
     # ---- seeded random concurrent scenarios
     n = 20000 if thorough else 600
     t2 = os.path.join(ctx.work, "trace-random.ndjson")
